@@ -305,6 +305,9 @@ def run_all(tier, seed):
             mod, nm = where[fk]
             rr = one(path, ['--rlimit', '60', '--verify-only-module', mod, '--verify-function', '*::' + nm], 'retry ' + fk)
             if any('could not find function' in (d.get('message') or '') for d in rr['diags']):
+                # a free function is named without a path prefix
+                rr = one(path, ['--rlimit', '60', '--verify-only-module', mod, '--verify-function', nm], 'retry ' + fk)
+            if any('could not find function' in (d.get('message') or '') for d in rr['diags']):
                 rr = one(path, ['--rlimit', '60', '--verify-only-module', mod], 'retry module of ' + fk)
             merged['diags'] += rr['diags']
             merged['wall_s'] += rr['wall_s']
